@@ -15,7 +15,7 @@ DevSess == IsEvent("DevSess") /\ (IF R.what = "added" /\ R.mode = "case"
                                        /\ st' = AfterDevSess(R.what, R.mode, R.reserved, R.i, R.fab, R.peer_node, R.cats, R.enc_fp, R.dec_fp, st)
                                   ELSE UNCHANGED st)
 IniSess == IsEvent("IniSess") /\ IniSessOk(R.i, R.mode, R.fab, R.peer_node, R.enc_fp, R.dec_fp, st) /\ st' = AfterIniSess(R.i, R.mode, R.fab, R.peer_node, R.enc_fp, R.dec_fp, st)
-Other   == i <= Len(Rec) /\ Rec[i].ev \in {"Step", "StepSkipped", "Mark", "Open", "Close", "IniEnd", "Proof", "Win", "End", "Cancel", "Garbage", "ProbeStart", "ProbeEnd"} /\ i' = i + 1 /\ UNCHANGED st
+Other   == i <= Len(Rec) /\ Rec[i].ev \notin {"Reset", "Start", "Hs", "DevSess", "IniSess"} /\ i' = i + 1 /\ UNCHANGED st
 Next == Reset \/ Start \/ Hs \/ DevSess \/ IniSess \/ Other
 Spec == Init /\ [][Next]_vars
 TraceAccepted ==
